@@ -140,7 +140,16 @@ def to_py(item):
 
 
 def _key(val):
-    return tuple(val) if isinstance(val, list) else val
+    ''' Map keys of any CBOR type as something hashable. '''
+    if isinstance(val, list):
+        return tuple(_key(v) for v in val)
+    if isinstance(val, dict):
+        return tuple(sorted((repr(k), repr(v)) for (k, v) in val.items()))
+    try:
+        hash(val)
+    except TypeError:
+        return repr(val)
+    return val
 
 
 def is_uint(item):
